@@ -294,7 +294,8 @@ type job struct {
 
 type result struct {
 	obs  *Obs
-	herr string // failure of the machinery
+	robs *ResyncObs // resync stream
+	herr string     // failure of the machinery
 }
 
 type child struct {
@@ -388,7 +389,12 @@ func runOne(chp **child, sp *Spec) result {
 		*chp = ch
 	}
 	ch := *chp
-	js, _ := json.Marshal(compact(sp))
+	var js []byte
+	if sp.Resync != nil {
+		js, _ = json.Marshal(map[string]interface{}{"resync": sp.Resync.compact()})
+	} else {
+		js, _ = json.Marshal(compact(sp))
+	}
 	if _, err := ch.in.Write(append(js, '\n')); err != nil {
 		ch.kill()
 		*chp = nil
@@ -406,11 +412,15 @@ func runOne(chp **child, sp *Spec) result {
 			return result{herr: "worker died: " + tail(se, 3000)}
 		}
 		var reply struct {
-			Obs   *Obs   `json:"obs"`
-			Error string `json:"error"`
+			Obs   *Obs       `json:"obs"`
+			RObs  *ResyncObs `json:"robs"`
+			Error string     `json:"error"`
 		}
 		if err := json.Unmarshal(line, &reply); err != nil {
 			return result{herr: "bad worker reply: " + err.Error()}
+		}
+		if reply.RObs != nil {
+			return result{robs: reply.RObs}
 		}
 		if reply.Obs == nil {
 			return result{herr: "worker: " + reply.Error}
@@ -719,6 +729,8 @@ func driveSync(c *hx.Ctx) error {
 	t0 := time.Now()
 	min := minObjs(c.Repo)
 	all := append(loadCorpus(c), generate(c)...)
+	all = append(all, loadResyncCorpus(c)...)
+	all = append(all, generateResync(c, min)...)
 	if os.Getenv("H_SYNC_ONLY") != "" { // development aid: run a single stream
 		var sel []tagged
 		for _, t := range all {
@@ -739,10 +751,16 @@ func driveSync(c *hx.Ctx) error {
 	var maxMs int64
 	var slowest string
 	totalMsgs, split, failed := 0, 0, 0
+	var resyncShard *hx.Shard
+	var rtot resyncTotals
 	for i, t := range all {
 		sp, rs := t.sp, res[i]
 		if rs.herr != "" {
 			c.HarnessError("case %s: %s", sp.Name, rs.herr)
+			continue
+		}
+		if sp.Resync != nil {
+			handleResync(c, t, rs, min, &resyncShard, &rtot)
 			continue
 		}
 		o := rs.obs
@@ -801,8 +819,12 @@ func driveSync(c *hx.Ctx) error {
 	if failed == 0 && os.Getenv("H_SYNC_ONLY") == "" {
 		c.HarnessError("no generated state failed to synchronise")
 	}
+	if rtot.staleThenDelivered == 0 && (os.Getenv("H_SYNC_ONLY") == "" || os.Getenv("H_SYNC_ONLY") == "resync") {
+		c.HarnessError("resync: no case in which a registration that failed after accepted chunks was followed by a completed one (%d cases)", rtot.cases)
+	}
 	c.Stats.Extra = map[string]interface{}{"cases": len(all), "synchronize_messages": totalMsgs, "split_cases": split, "failed_cases": failed,
-		"slowest_case_ms": maxMs, "slowest_case": slowest, "driver_wall_s": time.Since(t0).Seconds(), "min_objs_per_msg": min}
+		"slowest_case_ms": maxMs, "slowest_case": slowest, "driver_wall_s": time.Since(t0).Seconds(), "min_objs_per_msg": min,
+		"resync_cases": rtot.cases, "resync_cases_stale_chunks_then_delivered": rtot.staleThenDelivered}
 	c.Stats.Rule = "corpus (historic F4/F5 shapes, neighbours, boundaries) replayed first; then seeded streams: small (0..43 objects, all plugin scripts), " +
 		"many-small (100..4000 objects up to a few KiB), few-large (objects up to just under the 4 MiB limit, including untransmittable states), " +
 		"neighbours (0..5 pods + 9..120 containers of 60..700 KiB), mixed (tens of MiB), boundary (first message / first minimum chunk exactly at the limit, " +
